@@ -733,6 +733,10 @@ class PrefixedSubAppResource(PrefixResource):
     def _add_prefix_to_resources(self, prefix: str) -> None:
         router = self._app.router
         for resource in router.resources():
+            if isinstance(resource, MatchedSubAppResource):
+                # Resources matched by a rule are never indexed
+                resource.add_prefix(prefix)
+                continue
             # Since the canonical path of a resource is about
             # to change, we need to unindex it and then reindex
             router.unindex_resource(resource)
